@@ -231,3 +231,41 @@ def run(ctx):
         d = r.choice([35, 35, 0, 255])
         ops.append("\t".join(["match2"] + sig_fields(**a) + pkt_fields(**p) + [str(d)] + sig_fields(**b)))
     ctx.correspond(ops, nontrivial=lambda l, a: True, label="edited-in-place")
+    # 6. twins: two packet signatures that agree in everything a shared memo of the window multiplier might be keyed on except ONE of
+    #    the values the divisor search reads (peer MSS, timestamp presence, header length, IP version, own MSS), the window a multiple
+    #    of a divisor only one of them has; evaluated one after the other IN ONE PROCESS, in both orders - each verdict must be the one
+    #    the packet gets on its own
+    ops = []
+    for _ in range(ctx.n(6000, 120000)):
+        a = gens.rand_pkt(r)
+        a["mss"] = r.choice([1460, 1400, 1380, 536, 1220, 8960])
+        a["layout"] = [2]
+        b = dict(a)
+        k = r.choice(["synmss", "synmss", "synmss", "ts", "hdr", "ver", "mss"])
+        if k == "synmss":
+            a["synmss"], b["synmss"] = r.choice([1400, 1200, 1360, 9000, 512]), r.choice([0, 0, 1460, 1300])
+            d = r.choice([a["synmss"], a["synmss"] - 12])
+        elif k == "ts":
+            a["ts"], b["ts"] = 12345, 0
+            d = a["mss"] - 12
+        elif k == "hdr":
+            b["hdr"] = a["hdr"] + r.choice([4, 12, 20])
+            d = a["mss"] + a["hdr"]
+        elif k == "ver":
+            a["ver"], b["ver"] = 6, 4
+            a["quirks"] &= ~gens.V4ONLY
+            b["quirks"] = a["quirks"]
+            a["olen"] = b["olen"] = 0
+            d = r.choice([a["mss"] + 60, 1440, 1428])
+        else:
+            b["mss"] = a["mss"] - r.choice([12, 40, 100])
+            d = a["mss"]
+        n = r.randrange(1, max(2, min(40, 65535 // max(d, 1)) + 1))
+        a["win"] = b["win"] = min(65535, n * d)
+        s = sig_from_pkt(r, a)
+        s["wtype"], s["wsize"], s["mss"] = r.choice([3, 3, 4]), n, -1
+        dist = 35
+        first, second = (a, b) if r.random() < 0.5 else (b, a)
+        ops.append("seq\t" + "\x1f".join(op(sig_fields(**s), pkt_fields(**first), dist).split("\t")) + "\t"
+                   + "\x1f".join(op(sig_fields(**s), pkt_fields(**second), dist).split("\t")))
+    ctx.correspond(ops, nontrivial=lambda l, a: True, label="twins")
